@@ -61,18 +61,34 @@ static void phsCase(vf::Src &s, vf::Ctx &c)
 {
     unsigned n = (unsigned)s.in(2, 8);
     std::vector<double> f1(n), f2(n);
-    size_t layout = s.weighted({3, 3, 2});
+    // layouts: along the first axis / generic offset / independent / generic direction at a tiny separation (the statement quantifies over
+    // every pair separated by more than the library's 1e-9 circle tolerance)
+    size_t layout = s.weighted({3, 3, 2, 2});
+    const double tinySep = layout == 3 ? s.logreal(3e-9, 1e-2) : 0;
+    double dirNorm = 0;
+    std::vector<double> dir(n);
+    for (unsigned i = 0; i < n; ++i)
+    {
+        dir[i] = layout == 3 ? s.real(-1, 1) : 0;
+        dirNorm += dir[i] * dir[i];
+    }
+    dirNorm = std::sqrt(dirNorm);
+    if (layout == 3 && dirNorm < 1e-3)
+        throw vf::Skip{"degenerate direction"};
     for (unsigned i = 0; i < n; ++i)
     {
         f1[i] = s.real(-3, 3);
-        f2[i] = layout == 0 ? (i == 0 ? f1[i] + s.real(0.1, 4) : f1[i]) : layout == 1 ? f1[i] + s.real(0.05, 2) : s.real(-3, 3);
+        f2[i] = layout == 0 ? (i == 0 ? f1[i] + s.real(0.1, 4) : f1[i]) : layout == 1 ? f1[i] + s.real(0.05, 2) : layout == 2 ? s.real(-3, 3) : f1[i] + tinySep * dir[i] / dirNorm;
     }
     double dF = 0;
     for (unsigned i = 0; i < n; ++i)
         dF += (f1[i] - f2[i]) * (f1[i] - f2[i]);
     dF = std::sqrt(dF);
-    if (dF < 1e-6)
+    if (dF < 2e-9)
         throw vf::Skip{"foci too close"};
+    // absolute rounding floor of a focal-distance sum computed from coordinates of magnitude <= 5 (matters only for tiny separations)
+    const double ea = 5e-14;
+    c.count(layout == 3 ? (dF < 3.2e-5 ? "phs:separation<3.2e-5" : "phs:separation<1e-2") : "phs:separation-ordinary");
     size_t ck = s.weighted({4, 3, 3});
     double cost = ck == 0 ? dF * (1 + s.logreal(1e-4, 1)) : ck == 1 ? dF * s.real(1.0001, 2) : dF * s.real(2, 100);
     auto phs = std::make_shared<ompl::ProlateHyperspheroid>(n, f1.data(), f2.data());
@@ -97,8 +113,8 @@ static void phsCase(vf::Src &s, vf::Ctx &c)
         rng.uniformProlateHyperspheroidSurface(phs, x.data());
         double fs = focal(x.data());
         c.stat("surface-focal-sum-error(rel)", std::fabs(fs - cost) / cost);
-        VCHECK(c, std::fabs(fs - cost) <= 1e-9 * cost, "C15/surface-focal-sum", "n=%u: a surface sample has focal-distance sum %.15g, transverse diameter %.15g", n, fs, cost);
-        VCHECK(c, std::fabs(phs->getPathLength(x.data()) - fs) <= 1e-9 * cost, "C15/getPathLength", "getPathLength() %.15g != recomputed focal sum %.15g", phs->getPathLength(x.data()), fs);
+        VCHECK(c, std::fabs(fs - cost) <= 1e-9 * cost + ea, "C15/surface-focal-sum", "n=%u: a surface sample has focal-distance sum %.15g, transverse diameter %.15g", n, fs, cost);
+        VCHECK(c, std::fabs(phs->getPathLength(x.data()) - fs) <= 1e-9 * cost + ea, "C15/getPathLength", "getPathLength() %.15g != recomputed focal sum %.15g", phs->getPathLength(x.data()), fs);
     }
     // measure
     double vol = phsVolume(n, dF, cost);
@@ -106,7 +122,8 @@ static void phsCase(vf::Src &s, vf::Ctx &c)
            phs->getPhsMeasure(), vol);
     VCHECK(c, std::fabs(phs->getPhsMeasure(cost * 1.5) - phsVolume(n, dF, cost * 1.5)) <= 1e-9 * phsVolume(n, dF, cost * 1.5), "C15/phs-measure", "getPhsMeasure(c') differs from the analytic volume");
     // interior samples: inside, and (in a share of the cases, it costs 20000 samples) uniform
-    bool stat = s.chance(40);
+    // (not at tiny separations with a thin spheroid: the harness-side inverse map then amplifies coordinate rounding into the statistic)
+    bool stat = s.chance(40) && !(layout == 3 && (dF < 1e-5 || cost < 1.5 * dF));
     int N = stat ? 20000 : 64;
     // harness-side inverse affine map: coordinates along the focal axis and radial distance from it
     std::vector<double> axis(n), centre(n);
@@ -122,7 +139,7 @@ static void phsCase(vf::Src &s, vf::Ctx &c)
     {
         rng.uniformProlateHyperspheroid(phs, x.data());
         double fs = focal(x.data());
-        VCHECK(c, fs <= cost * (1 + 1e-9), "C15/interior-outside", "n=%u: an interior sample has focal sum %.15g > %.15g", n, fs, cost);
+        VCHECK(c, fs <= cost * (1 + 1e-9) + ea, "C15/interior-outside", "n=%u: an interior sample has focal sum %.15g > %.15g", n, fs, cost);
         double along = 0, tot = 0;
         for (unsigned i = 0; i < n; ++i)
         {
@@ -219,6 +236,24 @@ static void samplerCase(vf::Src &s, vf::Ctx &c)
         S.push_back(genP());
     for (int i = 0; i < ng; ++i)
         G.push_back(genP());
+    // sometimes the first goal sits a tiny, generically directed step away from the first start (separation > 1e-9 circle tolerance)
+    const bool tiny = s.chance(40);
+    if (tiny)
+    {
+        double sep = s.logreal(3e-9, 1e-2), nn = 0;
+        std::vector<double> dir(n);
+        for (auto &v : dir)
+        {
+            v = s.real(-1, 1);
+            nn += v * v;
+        }
+        nn = std::sqrt(nn);
+        if (nn < 1e-3)
+            throw vf::Skip{"degenerate direction"};
+        for (unsigned i = 0; i < n; ++i)
+            G[0][i] = std::min(hi, std::max(lo, S[0][i] + sep * dir[i] / nn));
+    }
+    const double ea = 5e-14;
     std::vector<ob::State *> owned;
     for (auto &p : S)
     {
@@ -258,8 +293,9 @@ static void samplerCase(vf::Src &s, vf::Ctx &c)
     for (auto &a : S)
         for (auto &b : G)
             dMin = std::min(dMin, dist(a, b.data()));
-    if (dMin < 1e-6)
+    if (dMin < 2e-9)
         throw vf::Skip{"foci too close"};
+    c.count(tiny ? (dMin < 3.2e-5 ? "sampler:separation<3.2e-5" : "sampler:separation<1e-2") : "sampler:separation-ordinary");
     bool direct = s.weighted({3, 2}) == 0;
     std::shared_ptr<ob::InformedSampler> smp;
     unsigned maxCalls = (unsigned)s.in(50, 400);
@@ -303,9 +339,9 @@ static void samplerCase(vf::Src &s, vf::Ctx &c)
         ++succ;
         VCHECK(c, sp->satisfiesBounds(st), "C15/out-of-bounds" + key, "a successful informed sample is outside the space bounds");
         double h = smp->heuristicSolnCost(st).value();
-        VCHECK(c, h < cost * (1 + 1e-9), "C15/not-below-bound" + key, "successful sample has heuristic solution cost %.12g, bound %.12g", h, cost);
+        VCHECK(c, h < cost * (1 + 1e-9) + ea, "C15/not-below-bound" + key, "successful sample has heuristic solution cost %.12g, bound %.12g", h, cost);
         if (lower)
-            VCHECK(c, h >= minCost * (1 - 1e-9), "C15/below-lower-bound" + key, "successful sample has heuristic solution cost %.12g below the lower bound %.12g", h, minCost);
+            VCHECK(c, h >= minCost * (1 - 1e-9) - ea, "C15/below-lower-bound" + key, "successful sample has heuristic solution cost %.12g below the lower bound %.12g", h, minCost);
         // recomputed focal-distance sum (position part)
         pos(st, p.data());
         double fsum = 1e300;
